@@ -978,6 +978,11 @@ impl Clone for %s {
                 body_txt = txt[b_lo:b_hi]
                 ok, why = check_holds(body_txt, var, decl_re, until_re)
                 self.syntactic.append(dict(oid=oid, tags=tags, addr=addr, ok=ok, why=why, src_file=rel, src_line=src_line))
+            # dual ownership condition (@nohandle): no local binding initialised by an expression matching <init> (a clone of a
+            # file handle) is still alive at the statement matched by <at> (Rust scoping: its block is still open and it has not been moved)
+            for (init_re, at_re, oid, tags) in c.nohandle:
+                ok, why = check_nohandle(txt[b_lo:b_hi], init_re, at_re)
+                self.syntactic.append(dict(oid=oid, tags=tags, addr=addr, ok=ok, why=why, src_file=rel, src_line=src_line))
             # the named call must be made unconditionally: exactly once, in the top-level block of the body
             for (call_re, oid, tags) in c.mustcall:
                 body_txt = txt[b_lo:b_hi]
@@ -1157,6 +1162,46 @@ def check_holds(body: str, var: str, decl_re: str, until_re: str):
                 return False, 'the block declaring `%s` ends before the statement' % var
         elif t.kind == 'ident' and t.text == var:
             return False, '`%s` is used (moved or dropped?) before the statement' % var
+    return True, ''
+
+
+def check_nohandle(body: str, init_re: str, at_re: str):
+    """no `let [mut] NAME [: T] = <init>;` whose initialiser matches init_re may be alive at the statement matched by at_re.
+    Alive = declared before it, the declaring block still open there, and NAME not used by value (moved / dropped) in between.
+    A lost `at` anchor is reported as failure of the obligation's premise by the caller's @mustcall twin; here it is a pass."""
+    body = re.sub(r'//[^\n]*', lambda m: ' ' * len(m.group(0)), body)
+    at = [m for m in re.finditer(at_re, body)]
+    if len(at) != 1:
+        return True, ''
+    b = at[0].start()
+    toks = [t for t in lex(body) if t.kind not in ('ws', 'comment')]
+    for m in re.finditer(r'\blet\s+(?:mut\s+)?([a-z_][A-Za-z0-9_]*)\s*(?::[^=;]*)?=\s*([^;]*);', body):
+        name, init = m.group(1), m.group(2)
+        if m.end() > b or not re.search(init_re, init):
+            continue
+        depth, alive = 0, True
+        prev = None
+        for i, t in enumerate(toks):
+            if t.start < m.end() or t.start >= b:
+                prev = t if t.start < m.end() else prev
+                if t.start >= b:
+                    break
+                continue
+            if t.kind == 'punct' and t.text == '{':
+                depth += 1
+            elif t.kind == 'punct' and t.text == '}':
+                depth -= 1
+                if depth < 0:
+                    alive = False; break
+            elif t.kind == 'ident' and t.text == name:
+                nxt = toks[i + 1] if i + 1 < len(toks) else None
+                by_ref = prev is not None and prev.text in ('&', 'mut', '.', '*')
+                place = nxt is not None and nxt.text in ('.', '=')
+                if not by_ref and not place:
+                    alive = False; break      # used by value: moved or dropped (lenient: never an alarm for a moved handle)
+            prev = t
+        if alive:
+            return False, '`%s` (initialised by `%s`) is still alive at /%s/: it keeps a WAL file referenced during the GC pass' % (name, init.strip()[:60], at_re)
     return True, ''
 
 
